@@ -65,6 +65,16 @@ def injections(rng, toks, defs, tier):
     top = base_plain.replace(";\n", ";\ninclude \"lib_bad.circom\";\n", 1)
     lib_syntax = "pragma circom 2.0.0;\ntemplate LibBroken( { signal input a; }\n"
     lib_collision = "pragma circom 2.0.0;\nfunction libbad(a, a) { return a; }\n"
+    # duplicate definitions: the tool keeps one definition per name, so the other one is dropped and must be reported — with and
+    # without a main component, inside one file and across a named file and a file it includes (fixed finding F-C02-duplicates)
+    dup_t = "template DupT() { signal input a; signal output b; b <-- a; }\ntemplate DupT() { signal input a; signal output b; b <== a * a; }\n"
+    dup_f = "function dupf(a) { return a; }\nfunction dupf(a) { return a + 1; }\n"
+    out.append(("duplicate-template-no-main", None, {"main.circom": "pragma circom 2.0.0;\n" + dup_t}, ["main.circom"]))
+    out.append(("duplicate-function-no-main", None, {"main.circom": "pragma circom 2.0.0;\n" + dup_f}, ["main.circom"]))
+    out.append(("duplicate-template-with-main", None, {"main.circom": base + dup_t}, ["main.circom"]))
+    lib_dup = "pragma circom 2.0.0;\ntemplate DupT() { signal input a; signal output b; b <== a; }\n"
+    top_dup = (base + "template DupT() { signal input a; signal output b; b <== a * a; }\n").replace(";\n", ";\ninclude \"lib_dup.circom\";\n", 1)
+    out.append(("duplicate-template-named-and-included-file", None, {"main.circom": top_dup, "lib_dup.circom": lib_dup}, ["main.circom"]))
     for nm, lib in (("syntax", lib_syntax), ("collision", lib_collision)):
         out.append(("named-and-included-%s-lib-first" % nm, None, {"main.circom": top, "lib_bad.circom": lib}, ["lib_bad.circom", "main.circom"]))
         out.append(("named-and-included-%s-lib-last" % nm, None, {"main.circom": top, "lib_bad.circom": lib}, ["main.circom", "lib_bad.circom"]))
